@@ -17,8 +17,11 @@ package asn1parser
 
 // X.690 definite-length header at stream offset k (length-of-length up to 4 bytes spelled out; longer ones abstract)
 //@ spec func derLenBig(s int, p int, n int) int uninterpreted
-//@ spec func derLenSize(r ref, k int) int = ite(at(r, k) < 128, 1, 1 + at(r, k) % 16)
-//@ spec func derLen(r ref, k int) int = ite(at(r, k) < 128, at(r, k), ite(at(r, k) % 16 == 0, 0, ite(at(r, k) % 16 == 1, at(r, k + 1), ite(at(r, k) % 16 == 2, at(r, k + 1) * 256 + at(r, k + 2), ite(at(r, k) % 16 == 3, at(r, k + 1) * 65536 + at(r, k + 2) * 256 + at(r, k + 3), ite(at(r, k) % 16 == 4, at(r, k + 1) * 16777216 + at(r, k + 2) * 65536 + at(r, k + 3) * 256 + at(r, k + 4), derLenBig(sid(r), $spos[sid(r)] + k, at(r, k) % 16)))))))
+//@ spec func atS(s int, k int) int = $sdata[s][$spos[s] + k]
+//@ spec func derLenSizeS(s int, k int) int = ite(atS(s, k) < 128, 1, 1 + atS(s, k) % 16)
+//@ spec func derLenS(s int, k int) int = ite(atS(s, k) < 128, atS(s, k), ite(atS(s, k) % 16 == 0, 0, ite(atS(s, k) % 16 == 1, atS(s, k + 1), ite(atS(s, k) % 16 == 2, atS(s, k + 1) * 256 + atS(s, k + 2), ite(atS(s, k) % 16 == 3, atS(s, k + 1) * 65536 + atS(s, k + 2) * 256 + atS(s, k + 3), ite(atS(s, k) % 16 == 4, atS(s, k + 1) * 16777216 + atS(s, k + 2) * 65536 + atS(s, k + 3) * 256 + atS(s, k + 4), derLenBig(s, $spos[s] + k, atS(s, k) % 16)))))))
+//@ spec func derLenSize(r ref, k int) int = derLenSizeS(sid(r), k)
+//@ spec func derLen(r ref, k int) int = derLenS(sid(r), k)
 //@ spec func pos(r ref) int = $spos[sid(r)]
 //@ spec func otherStreamsKept(r ref) bool = forall s int :: s != sid(r) ==> $spos[s] == old($spos[s])
 
@@ -37,6 +40,7 @@ package asn1parser
 //@   assigns X.stream
 //@   ensures err == nil ==> len(ret) == n && n >= 0 && n <= 4096
 //@   ensures[C06] content: err == nil ==> forall a int :: {elem(ret, a)} offset(ret) <= a && a < offset(ret) + n ==> elem(ret, a) == at(self, a - offset(ret))
+//@   ensures[C07] within_stream: err == nil ==> pos(self) + n <= $ssize[sid(self)]
 
 // ---- byte movers
 
@@ -90,6 +94,7 @@ package asn1parser
 //@   assigns E.uint8, X.stream
 //@   ensures err == nil ==> len(ret) == byteSize && byteSize + offset <= 4096
 //@   ensures[C06] content: err == nil ==> forall a int :: {elem(ret, a)} offset(ret) <= a && a < offset(ret) + byteSize ==> elem(ret, a) == at(reader, offset + (a - offset(ret)))
+//@   ensures[C07] within_stream: err == nil ==> pos(reader) + offset + byteSize <= $ssize[sid(reader)]
 
 // ---- header decoding
 
@@ -106,7 +111,7 @@ package asn1parser
 //@   requires readerOK(reader) && 0 <= offset 
 //@   assigns E.uint8, X.stream
 //@   ensures err == nil ==> ret != nil && offset < 4096
-//@   ensures[C06] err == nil ==> *ret == at(reader, offset)
+//@   ensures[C06] err == nil ==> *ret == at(reader, offset) && pos(reader) + offset + 1 <= $ssize[sid(reader)]
 
 //@ func ReadUint8
 //@   props C07
@@ -166,6 +171,7 @@ package asn1parser
 //@   requires readerOK(reader) && 0 <= offset 
 //@   assigns E.uint8, X.stream
 //@   ensures err == nil ==> ret != nil && 1 <= ret.Length.LengthSize && ret.Length.LengthSize <= 16 && 0 <= ret.Length.Length && offset < 4096
+//@   ensures[C07] within_stream: err == nil ==> pos(reader) + offset + 1 <= $ssize[sid(reader)]
 //@   ensures[C06] header: err == nil ==> ret.Tag == at(reader, offset) && ret.Length.LengthSize == derLenSize(reader, offset + 1) && (ret.Length.LengthSize <= 5 ==> ret.Length.Length == derLen(reader, offset + 1))
 
 //@ func ExpectTag
@@ -203,9 +209,10 @@ package asn1parser
 //@   ensures ret != nil && big(ret) == l.Length.LengthSize + 1
 
 //@ func IsContextSpecificTag
-//@   props C07
+//@   props C07 C06
 //@   requires tagLength != nil
 //@   pure
+//@   ensures ret == ((tagLength.Tag / 16) % 16 == 10)
 
 //@ func GetContextSpecificTagId
 //@   props C07
